@@ -132,12 +132,34 @@ theorem chain_none (cond : Str → Res Bool) (vIf : Str) (pre tail : List Node)
 /-- (4) an else-member met outside a chain (an orphan, or a member after the branch that rendered) is dropped by the main loop
     and the rest of the siblings is evaluated as if it were not there -/
 theorem orphan_else_dropped (W : World) (f : Nat) (ctx : Ctx) (st : St) (tag : Str) (attrs : List Attr) (kids rest : List Node)
-    (h1 : hasAttr attrs (S "v-once") = false) (h2 : hasAttr attrs (S "v-pre") = false) (h3 : hasAttr attrs (S "v-for") = false)
-    (h4 : tag ≠ S "slot") (h5 : hasAttr attrs (S "v-if") = false)
+    (h1 : hasAttr attrs (S "v-once") = false) (h2 : hasAttr attrs (S "v-pre") = false)
+    (h5 : hasAttr attrs (S "v-if") = false)
     (h6 : (hasAttr attrs (S "v-else-if") || hasAttr attrs (S "v-else")) = true) :
     evalList W (f + 1) ctx st (.elem tag attrs kids :: rest) = evalList W f ctx st rest := by
-  have h4' : (tag == S "slot") = false := by simpa using h4
-  simp [evalList, h1, h2, h3, h4', h5, h6]
+  simp [evalList, h1, h2, h5, h6]
+
+/-- (4b) … in particular when the member also carries `v-for` (fix: looped chain members): the loop is not run, so it can neither render its
+    instances next to the branch that was chosen nor, by producing nothing, hand a following `v-else` to the for-else rule -/
+theorem looped_orphan_dropped (W : World) (f : Nat) (ctx : Ctx) (st : St) (tag : Str) (attrs : List Attr) (kids rest : List Node)
+    (h1 : hasAttr attrs (S "v-once") = false) (h2 : hasAttr attrs (S "v-pre") = false)
+    (h5 : hasAttr attrs (S "v-if") = false) (_h3 : hasAttr attrs (S "v-for") = true)
+    (h6 : (hasAttr attrs (S "v-else-if") || hasAttr attrs (S "v-else")) = true) :
+    evalList W (f + 1) ctx st (.elem tag attrs kids :: rest) = evalList W f ctx st rest :=
+  orphan_else_dropped W f ctx st tag attrs kids rest h1 h2 h5 h6
+
+theorem hasAttr_removeAttr_self (attrs : List Attr) (k : Str) : hasAttr (removeAttr attrs k) k = false := by
+  simp [hasAttr, removeAttr, List.any_filter]
+
+theorem hasAttr_removeAttr_of_false (attrs : List Attr) (k k' : Str) (h : hasAttr attrs k = false) : hasAttr (removeAttr attrs k') k = false := by
+  simp only [hasAttr, removeAttr, List.any_eq_false, List.mem_filter] at *
+  intro a ha
+  exact h a ha.1
+
+/-- (4c) the instances of a looped member that WAS selected carry no chain directive any more, so the main loop does not take them for orphans -/
+theorem loop_instance_has_no_chain_directive (attrs : List Attr) :
+    hasAttr (loopInstanceAttrs attrs) (S "v-else-if") = false ∧ hasAttr (loopInstanceAttrs attrs) (S "v-else") = false := by
+  unfold loopInstanceAttrs
+  exact ⟨hasAttr_removeAttr_of_false _ _ _ (hasAttr_removeAttr_self _ _), hasAttr_removeAttr_self _ _⟩
 
 /-- (5) truthiness is one function at every consumer. `:class` objects: a key is included exactly when its value is truthy … -/
 theorem class_object_iff_truthy (k : Str) (v : Val) :
